@@ -60,3 +60,10 @@ check("C09", "fault_enumeration", "exhaustive enumeration (deviation-bounded DFS
 for e in ENGINES:
     if e["name"] in ("mcrt", "instrument", "mcos"):
         e["serves_properties"] = sorted(set(e["serves_properties"] + ["C09"]))
+
+check("C20", "exploration", "exhaustive enumeration of all strings up to length n over class-representative alphabets (plus every code point and code-point pair) through the real BPE and SentencePiece tokenizers",
+      "Three tokenizers built through the real constructors (llama3.2 vocabulary from testdata with the tree's llama3 pre-tokenizer, a synthetic byte-complete BPE with adversarial merges behind the mistral3 pre-tokenizer, a synthetic SentencePiece vocabulary with byte fallback); every string up to the stated length over several alphabets (class representatives, special-token literals, whitespace kinds, contractions, {a,b}^n), every code point alone and in context, every code-point pair below a bound; oracle: no error, ids in range, Decode(Encode(s)) == s byte for byte, special literals map to their ids in place, addSpecial only adds BOS/EOS.",
+      "Go toolchain; synthetic vocabularies are harness-built; the U+2581/space ambiguity of SentencePiece is an assumption, not a violation.", "DESIGN.md 3/C20", "evid")
+for e in ENGINES:
+    if e["name"] == "evid":
+        e["serves_properties"] = sorted(set(e["serves_properties"] + ["C20"]))
